@@ -28,9 +28,16 @@ def build_history(rnd):
     def do(op):
         ops.append(op); return im.step(op)
     n = rnd.randint(3, 9)
+    taken = set()
     for i in range(n):
         t = rnd.choices(['or', 'and', 'defense', 'exist'], [4, 6, 2, 1])[0]
-        do({'k': 'add_node', 'name': f's{i}', 'asset': rnd.choice(['A', 'B', None]), 'type': t,
+        # step names repeat across assets (as in every generated graph: 'access' of A and 'access' of B); only the
+        # full name (asset, step) is unique
+        while True:
+            nm, asset = rnd.choice(['s0', 's1', 's2', f's{i}']), rnd.choice(['A', 'B', 'C', None])
+            if asset is None or (asset, nm) not in taken: break
+        taken.add((asset, nm))
+        do({'k': 'add_node', 'name': nm, 'asset': asset, 'type': t,
             'viable': rnd.random() < 0.8, 'necessary': rnd.random() < 0.7, 'defOne': (d1 := rnd.random() < 0.5),
             'suppress': (sp := rnd.random() < 0.3), 'tags': ['suppress'] if sp else [], 'id': None, **({'defense': '1.0' if d1 else '0.5'} if t == 'defense' else {})})
     dens = rnd.choice([1.0, 2.0, 3.0]) / n
@@ -38,6 +45,8 @@ def build_history(rnd):
         for c in range(n):
             if rnd.random() < dens:
                 do({'k': 'link', 'p': p, 'c': c})
+                if rnd.random() < 0.25:        # the same edge twice (two step expressions reaching the same target)
+                    do({'k': 'link', 'p': p, 'c': c})
     na = rnd.randint(1, 3)
     for a in range(na):
         reached = rnd.sample(range(n), rnd.randint(0, min(3, n)))
